@@ -36,6 +36,9 @@ theorem save_postcondition (d : Dir) (xs : List Tag) (counts : List Nat) (ow : B
   by_cases h1 : (!ow && (d.files xs.length).isSome) = true
   · simp [h1] at hok
   · simp only [h1, Bool.false_eq_true, if_false] at hok ⊢
+    by_cases h1b : (!ow && !preCheck d (allItems xs 0 counts) mean) = true
+    · simp [h1b] at hok
+    simp only [h1b, Bool.false_eq_true, if_false] at hok ⊢
     generalize hd0 : (if ow = true then ({ d with files := fun j => if j = xs.length then none else d.files j } : Dir) else d) = d0 at hok ⊢
     have hd0n : d0.files xs.length = none := by
       subst hd0
@@ -181,6 +184,101 @@ theorem save_overwrite_succeeds (d : Dir) (xs : List Tag) (counts : List Nat) (m
   unfold save
   cases mean <;> simp [hr]
 
+/-- **refused_save_changes_nothing**: a save that is refused — whatever the reason: the file after the list exists, a
+    target file of SOME task exists, the mean file exists — leaves the directory exactly as it was, for any distribution of
+    the samples over tasks.  (With `overwrite=True` a save is never refused.) -/
+theorem refused_save_changes_nothing (d : Dir) (xs : List Tag) (counts : List Nat) (ow : Bool) (mean : Option Tag)
+    (_hc : counts.sum = xs.length) (hre : (save d xs counts ow mean).2 ≠ .ok ()) :
+    (save d xs counts ow mean).1 = d := by
+  cases ow with
+  | true => exact absurd (save_overwrite_succeeds d xs counts mean) hre
+  | false =>
+    unfold save at hre ⊢
+    by_cases h1 : (!false && (d.files xs.length).isSome) = true
+    · rw [if_pos h1]
+    · simp only [h1, Bool.false_eq_true, if_false] at hre ⊢
+      by_cases h1b : (!false && !preCheck d (allItems xs 0 counts) mean) = true
+      · rw [if_pos h1b]
+      · exfalso
+        simp only [h1b, Bool.false_eq_true, if_false] at hre
+        have hpc : preCheck d (allItems xs 0 counts) mean = true := by
+          cases hh : preCheck d (allItems xs 0 counts) mean with
+          | true => rfl
+          | false => simp [hh] at h1b
+        obtain ⟨habs, hmean⟩ := (preCheck_iff _ _ _).mp hpc
+        have hnd : ((allItems xs 0 counts).flatten.map Prod.fst).Nodup := by
+          rw [allItems_flatten, List.map_map]
+          have : (Prod.fst ∘ fun i => (i, xs.getD i 0)) = id := by funext i; rfl
+          rw [this, List.map_id]
+          exact List.nodup_range'
+        have hok := writeRanks_false_ok _ d habs hnd
+        simp only [hok, Bool.not_true, Bool.false_eq_true, if_false] at hre
+        cases mean with
+        | none => exact hre rfl
+        | some m =>
+          simp only at hre
+          have hm : (writeRanks false d (allItems xs 0 counts)).1.mean = d.mean := (writeRanks_hi_mean false _ d).2
+          rcases hmean with hmn | hmn
+          · simp at hmn
+          · rw [Option.isNone_iff_eq_none] at hmn
+            rw [hm, hmn] at hre
+            simp at hre
+
+/-- **refused_on_nonempty_fresh**: on a directory that holds a non-empty list, every save WITHOUT overwrite is refused -/
+theorem refused_on_nonempty_fresh (d : Dir) (ys xs : List Tag) (counts : List Nat) (mean : Option Tag)
+    (hf : Fresh d ys) (hn : 1 ≤ ys.length) (hc : counts.sum = xs.length) :
+    (save d xs counts false mean).2 = .error .fileExists := by
+  unfold save
+  by_cases h1 : (!false && (d.files xs.length).isSome) = true
+  · rw [if_pos h1]
+  · simp only [h1, Bool.false_eq_true, if_false]
+    have hx : ys.length ≤ xs.length := by
+      rcases Nat.lt_or_ge xs.length ys.length with h | h
+      · exfalso; apply h1
+        simp [(hf.1 _ h).1]
+      · exact h
+    have hnot : preCheck d (allItems xs 0 counts) mean = false := by
+      cases hh : preCheck d (allItems xs 0 counts) mean with
+      | false => rfl
+      | true =>
+        exfalso
+        obtain ⟨habs, _⟩ := (preCheck_iff _ _ _).mp hh
+        have hmem : (0, xs.getD 0 0) ∈ (allItems xs 0 counts).flatten := by
+          rw [allItems_flatten, hc]
+          exact List.mem_map.mpr ⟨0, by simp [List.mem_range']; omega, rfl⟩
+        have := habs _ hmem
+        rw [(hf.1 0 (by omega)).1] at this
+        cases this
+    simp [hnot]
+
+/-- **refused_save_then_load**: so after a list has been saved, any number of refused save attempts (any lengths, any
+    task counts) later, a load still returns exactly that list: neither the attempted samples nor stale files from
+    older, longer lists can appear -/
+theorem refused_save_then_load (d : Dir) (ys : List Tag) (attempts : List SaveOp) (q : Nat) (hq : 0 < q)
+    (hf : Fresh d ys) (hn : 1 ≤ ys.length)
+    (hatt : ∀ op ∈ attempts, op.ow = false ∧ op.counts.sum = op.xs.length) :
+    applySaves d attempts = d ∧ ∃ per, load (applySaves d attempts) q false = .ok per ∧ per.flatten = ys := by
+  have hsame : applySaves d attempts = d := by
+    induction attempts with
+    | nil => rfl
+    | cons op rest ih =>
+      have hop := hatt op (List.mem_cons_self ..)
+      have hre := refused_on_nonempty_fresh d ys op.xs op.counts op.mean hf hn hop.2
+      have hun := refused_save_changes_nothing d op.xs op.counts false op.mean hop.2 (by rw [hre]; exact fun h => by cases h)
+      simp only [applySaves, List.foldl_cons]
+      rw [hop.1, hun]
+      exact ih (fun o ho => hatt o (List.mem_cons_of_mem _ ho))
+  refine ⟨hsame, ?_⟩
+  rw [hsame]
+  obtain ⟨per, h1, h2, _⟩ := load_of_fresh d ys q false hq hn hf (by simp)
+  exact ⟨per, h1, h2⟩
+
+/-- **nonoverwrite_write_preserves_existing**: the write loops themselves, run without overwrite, can never alter or
+    delete a file that exists (this held before the repair too; what was missing was the up-front check) -/
+theorem nonoverwrite_write_preserves_existing (d : Dir) (items : List (List (Nat × Tag))) (j : Nat) (t : Tag)
+    (h : d.files j = some t) : (writeRanks false d items).1.files j = some t :=
+  (writeRanks_false_files items d j).1 t h
+
 /-- **load_partition_independent**: the number of loading tasks does not matter (two successful loads of the same
     directory return the same samples in the same order) — a consequence of `load_of_fresh` for fresh directories;
     stated here for the directory after any successful save -/
@@ -270,6 +368,14 @@ example : ((save (save emptyDir [10, 11, 12, 13] [2, 2] true none).1 [20, 21] [1
 example : (save (save emptyDir [10, 11, 12, 13] [2, 2] true none).1 [20, 21] [1, 0, 1] false none).2 = .error .fileExists := by
   decide
 example : consecutiveLength [3, 0, 1, 5] = .ok 2 := by decide
+-- the write loops WITHOUT the up-front check (the code before fixes/C26_refused_save_side_effects.diff): a refused save
+-- of 4 samples over 2 tasks onto [20,21] with stale files 3.. from an older list of 6 leaves a directory that loads as
+-- [20, 21, new 32, stale 13, stale 14, stale 15] — the defect the check repairs
+example :
+    let d := (save (save emptyDir [10, 11, 12, 13, 14, 15] [6] true none).1 [20, 21] [2] true none).1
+    let d' := (writeRanks false d (allItems [30, 31, 32, 33] 0 [2, 2])).1
+    load d' 1 false = .ok [[20, 21, 32, 13, 14, 15]] ∧ (save d [30, 31, 32, 33] [2, 2] false none).1.files 2 = none := by
+  decide
 example : sampleStat ([1, 2, 6] : List Rat) = some (3, 7) := by
   norm_num [sampleStat, wMean, wVar, wRun, wAdd, wInit]
 
